@@ -205,6 +205,11 @@ func (w *World) release(q *Req, v replyVariant) {
 	if v.name != "ok" {
 		w.faultsFired["err:"+v.name]++
 		w.jl(&journal.Ev{K: journal.KFault, Vb: int(q.pkt.Vbucket), S: "err:" + v.name, ID: q.id})
+		if se, ok := w.scn.(*scEnds); ok && v.name == "reopen-fail" {
+			w.noteReopenFail(int(q.pkt.Vbucket), se)
+		}
+	} else if se, ok := w.scn.(*scEnds); ok && q.pkt.Command == memd.CmdDcpStreamReq {
+		se.reopenFails[int(q.pkt.Vbucket)] = 0
 	}
 	w.cl.respond(q, v)
 	w.mu.Unlock()
@@ -563,6 +568,13 @@ func (w *World) faultActions(conns []*Conn) []Action {
 			}
 			acts = append(acts, Action{ID: "drop|" + c.id, W: cfg.W.ConnDrop, Do: func() {
 				w.mu.Lock()
+				if se, ok := w.scn.(*scEnds); ok {
+					for _, q := range c.queue {
+						if q.pkt.Command == memd.CmdDcpStreamReq {
+							w.noteReopenFail(int(q.pkt.Vbucket), se) // the request dies with the connection: one failed attempt
+						}
+					}
+				}
 				w.cl.dropConn(c)
 				w.mu.Unlock()
 				w.fault("conndrop", c.id)
